@@ -53,6 +53,20 @@ Definition commit (db : list kv) (b : list bwrite) : list kv := fold_left apply_
 Definition ikey (i : N) (k : bytes) : bytes := i :: k.          (* encodeKeyFunc: id ++ key *)
 Definition strip (e : kv) : kv := (tl (fst e), snd e).            (* decodeKeyFunc: key[1:] *)
 
+(** a LARGE batch described by a generator descriptor instead of a list of operations: the
+    [n]-th of [count] batched operations (n = 0, 1, …) goes to index [i1] (n even) or [i2] (n odd),
+    on the 2-byte key number [(n * stride + offset) mod nkeys]; every third one is a DeleteInBatch,
+    the others PutInBatch of the 2-byte value [n mod 256; n / 256 mod 256].  The harness expands the
+    same descriptor into real PutInBatch / DeleteInBatch calls. *)
+Definition bulk_write (i1 i2 nkeys stride offset n : N) : bwrite :=
+  let j := (n * stride + offset) mod nkeys in
+  let key := ikey (if N.even n then i1 else i2) [j / 256; j mod 256] in
+  if n mod 3 =? 2 then WDel key else WPut key [n mod 256; (n / 256) mod 256].
+Definition bulk_step (i1 i2 nkeys stride offset : N) (st : N * list bwrite) : N * list bwrite :=
+  (fst st + 1, bulk_write i1 i2 nkeys stride offset (fst st) :: snd st).
+Definition bulk_writes (i1 i2 count nkeys stride offset : N) : list bwrite :=
+  rev (snd (N.iter count (bulk_step i1 i2 nkeys stride offset) (0, []))).
+
 (** [bytesIncrement] *)
 Definition bytes_increment (p : bytes) : option bytes := prefix_limit p.
 
@@ -215,7 +229,8 @@ Inductive op :=
 | OSGet (fk : bytes)                          (* StringField *)
 | OSPut (fk : bytes) (s : bytes)
 | OSPutB (fk : bytes) (s : bytes)
-| OReopen.                                    (* Close, NewDB on the same directory, NewIndex/New…Field again *)
+| OReopen                                     (* Close, NewDB on the same directory, NewIndex/New…Field again *)
+| OBBulk (i1 i2 count nkeys stride offset : N).   (* [count] PutInBatch / DeleteInBatch calls, see [bulk_write] *)
 
 Inductive obs :=
 | BOk
@@ -283,6 +298,8 @@ Definition step (s : state) (o : op) : state * obs :=
   | OSPut fk v => (with_db s (db_put fk v db), BOk)
   | OSPutB fk v => (with_batch s (st_batch s ++ [WPut fk v]), BOk)
   | OReopen => (with_batch s [], BOk)                 (* content and schema are on disk; the batch object is gone *)
+  | OBBulk i1 i2 count nkeys stride offset =>
+      (with_batch s (st_batch s ++ bulk_writes i1 i2 count nkeys stride offset), BOk)
   end.
 
 Fixpoint run (s : state) (h : list op) : state * list obs :=
